@@ -36,6 +36,8 @@ try:
         cmd = f"go run {race} ./{os.path.basename(d)}"
     else:
         pkgdir = m.group(1).rstrip("/").rstrip(".") if m else None
+        if os.environ.get("SEED_PKGDIR"):
+            pkgdir = os.environ["SEED_PKGDIR"]
         if pkgdir is None or pkgdir.endswith("..."):
             # fall back: directory of the first patched file
             f = re.search(r"^\+\+\+ b/(\S+)", open(os.path.join(seed, "patch.diff")).read(), re.M).group(1)
